@@ -18,6 +18,20 @@ var propSpecs = map[string]*PropSpec{}
 func init() {
 	decodeRoots := append([]string{"ReadPacket", "(*fixedHeader).ReadFrom", "(*fixedHeader).ReadRemaining"},
 		methodsOf(append(append([]string{}, packetTypes...), "Undefined"), "UnmarshalBinary")...)
+	renderRoots := append(methodsOf(packetTypes, "String"), "(*Undefined).String")
+	for _, t := range packetTypes {
+		if t != "PingReq" && t != "PingResp" {
+			renderRoots = append(renderRoots, "(*"+t+").dump")
+		}
+	}
+	renderRoots = append(renderRoots, "Dump", "(firstByte).String", "(connectFlags).String", "(connAckFlags).String",
+		"(TopicFilter).String", "(ReasonCode).String", "(UserProp).String", "(*UserProperties).dump",
+		"(*Malformed).Error", "(*Publish).WellFormed", "(*Subscribe).WellFormed", "(*TopicFilter).WellFormed",
+		// representation invariant of Connect (will flag => will != nil): established by the
+		// constructor; preservation by every exported method is added from the type-invariant directive
+		"NewConnect")
+	propSpecs["C19"] = &PropSpec{ID: "C19", Roots: renderRoots, InvariantMethods: true,
+		Note: "all panic obligations of String, dump, Dump and of the table-driven renderings are discharged for every packet value satisfying the representation invariant (CONNECT: will flag set implies a will message is attached), which is proved to hold for constructor results and to be preserved by every mutator that touches the flag byte or the will, and by UnmarshalBinary also when it fails"}
 	propSpecs["C04"] = &PropSpec{ID: "C04", Roots: decodeRoots,
 		Note: "every automatically generated panic obligation (index, slice, nil dereference, type assertion, make, explicit panic, nil call) of ReadPacket and of the 16 UnmarshalBinary methods and of everything they call is discharged for arbitrary input bytes; plus the (packet, error) pair postcondition of ReadPacket/ReadRemaining"}
 }
